@@ -181,13 +181,16 @@ func (q *UdpTaskQueue) convoy() {
 			}
 
 			// CAS refs to lock out new acquireQueue and avoid time.Sleep
+			verifYield("utp1")
 			if !q.refs.CompareAndSwap(0, -1000000) {
 				q.safeTimerReset(timer)
 				continue
 			}
 
 			// Try to delete from pool using CAS-like semantics via sync.Map
+			verifYield("utp2")
 			if q.p.tryDeleteQueue(q.key, q) {
+				verifYield("utp3")
 				q.p.queueChPool.Put(q.ch)
 				return
 			}
@@ -225,7 +228,9 @@ func (p *UdpTaskPool) EmitTask(key UdpFlowKey, task UdpTask) {
 	if q == nil {
 		return
 	}
+	verifYield("utp6")
 	q.enqueue(task)
+	verifYield("utp5")
 	q.refs.Add(-1)
 }
 
@@ -242,6 +247,7 @@ func (p *UdpTaskPool) acquireQueue(key UdpFlowKey) *UdpTaskQueue {
 			if refs < 0 {
 				goto createNew
 			}
+			verifYield("utp4")
 			if q.refs.CompareAndSwap(refs, refs+1) {
 				return q
 			}
